@@ -1,6 +1,7 @@
 """Registry: per property, its generator, which observation kinds are P-observations, which have an oracle,
 the non-triviality rule and feature counters (DESIGN.md section 4)."""
 import glob
+import re
 import os
 import gen
 
@@ -528,7 +529,7 @@ PROPS['C12'] = dict(
 PROPS['C07'] = dict(
     gen=lambda rng, tier: gen.harm_scenario(rng, size=tier),
     p_cmds={'snap', 'trace', 'restart', 'open', 'r', 'c', 'ram', 'counts'},
-    impl_only_if_ct={'trace'}, tolerate_err_after_damage=True, no_oracle_after_nomodel=True,
+    impl_only_cmds={'trace'}, tolerate_err_after_damage=True, no_oracle_after_nomodel=True,
     oracle_cmds={'r', 'c', 'ram', 'states'}, py_oracle=oracle_c07,
     count={'quick': 80, 'thorough': 1200}, timeout=1800,
     nontrivial=lambda lines: any('bdmg=' in l for l in lines) or sum(1 for l in lines if l.startswith('restart')) >= 2,
@@ -773,3 +774,103 @@ PROPS['C16'] = dict(
                  'claimed length (tools only) and abort the process; skipping past a header with damaged size fields cannot '
                  'work without resynchronisation and is outside the generated damage'],
 )
+
+
+def oracle_c11(res, i):
+    cmd = res['script'][i].split()
+    out = res['impl'][i]
+    c = cmd[0]
+    armed = False
+    for j in range(i):
+        t = res['script'][j].split()[0]
+        if t == 'fault':
+            armed = True
+        elif t == 'clearfaults':
+            armed = False
+    if c == 'states' and i > 0 and res['script'][i - 1].startswith('d ') and res['oracle'][i].startswith('MISMATCH delete-targets'):
+        # a delete issued while a fault is armed may mark fewer blobs than the key is live in (the per-blob error
+        # of a closed blob is logged and counted as "not deleted"); it must never mark a blob it should not
+        armed_at_delete = False
+        for j in range(i - 1):
+            t = res['script'][j].split()[0]
+            armed_at_delete = True if t == 'fault' else (False if t == 'clearfaults' else armed_at_delete)
+        m = re.search(r'expected=\[([^\]]*)\] got=\[([^\]]*)\]', res['oracle'][i])
+        if armed_at_delete and m:
+            exp = {x.strip() for x in m.group(1).split(',') if x.strip()}
+            got = {x.strip() for x in m.group(2).split(',') if x.strip()}
+            if got <= exp:
+                return 'OK'
+    if c == 'snap' and out != 'snap ok':
+        return f'MISMATCH {out}'
+    if c == 'alive' and out != 'alive':
+        return 'MISMATCH background worker died after an I/O fault'
+    if c in ('restart', 'open', 'clearfaults') and out != 'ok' and not armed:
+        return f'MISMATCH {c}: {out}'
+    if not armed and c == 'w' and not out.startswith('ok'):
+        return f'MISMATCH write rejected after the fault was cleared: {out}'
+    if not armed and c == 'd' and not out.startswith('n='):
+        return f'MISMATCH delete rejected after the fault was cleared: {out}'
+    if not armed and c == 'settle' and out != 'ok':
+        return f'MISMATCH index dumps do not complete after the fault was cleared: {out}'
+    return None
+
+
+PROPS['C11'] = dict(
+    gen=lambda rng, tier: gen.fault_scenario(rng, size=tier),
+    p_cmds={'r', 'c', 'ram', 'w', 'd', 'snap', 'alive', 'restart', 'counts', 'settle'},
+    oracle_cmds={'r', 'c', 'ram', 'states'}, py_oracle=oracle_c11,
+    count={'quick': 120, 'thorough': 1500}, timeout=2400,
+    nontrivial=lambda lines: any(l.startswith('fault') for l in lines),
+    features=lambda lines: {' '.join(l.split()[:2] + l.split()[3:5]) for l in lines if l.startswith('fault')} |
+    {'op under fault: ' + lines[i + 1].split()[0] for i, l in enumerate(lines[:-1]) if l.startswith('fault')},
+    tolerate_err_after_damage=False,
+    rule=("a random history, then 1-6 rounds: arm a failpoint (the n-th create/write/sync on *.blob or *.index, n in "
+          "0..2, ENOSPC / EIO / short write of 0,7,60 bytes), run 1-3 operations (writes up to 90 kB, deletes, close/force/"
+          "create/restore active, settle = background dumps, fsync), read every key; clear the fault; worker must be alive; "
+          "read everything; two more data operations must succeed (incl. rotation with a record limit of 4); byte snapshots; "
+          "restart and read everything again. The Spec oracle follows the implementation's acknowledgements: a failed "
+          "operation that is served later, a lost acknowledged record, or records of a vanished blob that is not preserved "
+          "intact in the corrupted directory are violations"),
+    assumptions=['the model comparison is off once a fault is armed (nomodel); the Spec oracle and the snapshot/liveness oracles judge the implementation'],
+)
+
+
+# ---- known findings: precise predicates (a different violation of the same property is still reported) ------
+
+def _two_buffer_write(line):
+    t = line.split()
+    return len(t) == 6 and t[0] == 'w' and int(t[4]) > 4200 - 200   # header + meta + data above the single-pass limit
+
+
+def known_e8_failed_large_write_indexed(f):
+    """E8 seen through C11: the second pwrite of a two-buffer record failed (the call returned an error), the
+    complete record header stayed in the blob, and the index-less scan at the next start accepts the torn tail
+    record: exactly one unexplained record appears at the `states` probe right after a restart"""
+    sc, impl, i = f.scen['script'], f.scen['impl'], f.line_no
+    if 'unexplained-growth' not in f.detail or sc[i] != 'states':
+        return False
+    if i == 0 or not sc[i - 1].startswith(('restart', 'open')):
+        return False
+    # a failed write that may have left a complete record header behind: a two-buffer record whose data pwrite
+    # failed, or any record cut by an injected short write on a blob file
+    short_armed = any(re.match(r'fault write \d+ \S*blob\S* short:', l) for l in sc[:i])
+    failed_big = [j for j in range(i) if sc[j].split()[0] in ('w', 'd') and impl[j].startswith('err')
+                  and (_two_buffer_write(sc[j]) or short_armed)]
+    if not failed_big:
+        return False
+    # the growth is one record, in the blob that was active when the write failed
+    prev = None
+    for j in range(i - 1, -1, -1):
+        if impl[j].startswith('#states'):
+            prev = {t.split(':')[0]: int(t.split(':')[2]) for t in impl[j].split()[1:]}
+            break
+    cur = {t.split(':')[0]: int(t.split(':')[2]) for t in impl[i].split()[1:]}
+    if prev is None:
+        return False
+    grown = [(k, cur[k] - prev.get(k, 0)) for k in cur if cur[k] > prev.get(k, 0)]
+    return len(grown) == 1 and grown[0][1] <= len(failed_big)
+
+
+KNOWN_PREDICATES = {
+    'e8_failed_large_write_indexed': known_e8_failed_large_write_indexed,
+}
